@@ -39,7 +39,7 @@ func perm(r *vx.Rand, n int) []int {
 
 // recoverWith is recoverAndAudit with the recovering client given (nil = a fresh one).
 func recoverWith(w *hub.World, rd *hub.Client, keys [][]byte, r *vx.Rand, how int, victims ...*hub.Client) bool {
-	w.AdvanceClock(60000)
+	w.AdvanceClock(recoveryAdvanceMs())
 	if rd == nil {
 		rd = w.NewClient("r")
 	}
